@@ -1,5 +1,25 @@
 """Human-written level texts for MANIFEST.json."""
 META = {
+    "C19": dict(
+        text="Proof of the logic + measured runtime (partial): token-bucket law for every operation sequence (bucket_bound, window_bound, time_for_grants: n grants need at "
+             "least (n - burst)/rate time, from any reachable bucket state); model wiring: every recovery emission takes exactly one token of the single shared limiter and main-"
+             "consumer events none (emission_takes_token, main_untouched); source wiring regenerated from /repo on every run and checked by kernel rfl: limiter built as "
+             "rate.NewLimiter(rate.Limit(maxRecordsPerSec), 100) and mentioned nowhere else but the Wait that precedes the send in recoverSingleEvent "
+             "(skeleton_limiterUses, skeleton_recoverSingleEvent, skeleton_kafkaProcessEvent). Events per second are measured on the real code against the model's lower bound.",
+        note="Partial: the seconds are a runtime quantity and cannot be exhibited in Lean; they are measured with the really-constructed limiter. Trusted: x/time/rate's bucket contract, "
+             "the extractor, wall-clock margins.",
+        technique="Lean 4 theorems (token bucket, wiring) + regenerated source facts checked by rfl + timing harness on the real limiter",
+    ),
+    "C14": dict(
+        text="Proof: per-attempt conservation (every document of a bulk response is answered now xor carried over: handle_conserve/attempt_conserve) and hence exactly-once "
+             "answering over the whole retry chain for every outcome script (chain_exactly_once); success only for 2xx (success_only_if_ok); only retryable failures are "
+             "carried and never beyond the budget (carried_only_retryable, sends_within_budget, docResult_sends); batches never exceed batch-size and batching neither loses nor "
+             "reorders (chunks_le, chunks_flatten); in-flight requests never exceed index-workers (pool_conserved, pool_bound); a document's answer is determined by its own "
+             "script (docResult_success). The Shutdown clause is FALSE on the unchanged code: shutdown_drops_partial_batch is a kernel-checked witness (known finding F8). "
+             "Tied to the real node over a scripted bulk service; timing clauses are measured.",
+        note="Trusted: Lean kernel, model transcription, scripted bulk service, wall-clock margins. F7 (late response re-ran the batch) was found and repaired; F8 (Shutdown drops "
+             "the partial batch and does not await in-flight requests) is a known finding, matched by clause unanswered-after-shutdown only.",
+    ),
     "C15": dict(
         text="Proof (decision logic stated outright): a record is produced iff the payload is a produce request and a topic is known, the request's topic wins, the "
              "value is unchanged, nothing goes to children (produce_iff, produce_topic_value, wrong_type_rejected); the error JSON preserves structured errors and maps "
